@@ -67,6 +67,8 @@ for t in ["u64", "i64", "u128", "i128", "usize", "isize"]:
                 "TryFrom<%s> checked against SafeLong::new's contract (stub_verified)" % t))
 for t in ["u8", "i8", "u16", "i16", "u32", "i32"]:
     _h.append(H("from_" + t, "C15.K.from.%s" % t, ["macro impl_from"], "From<%s> yields wf and keeps the value" % t))
+for t in ["u8", "i8", "u16", "i16", "u32", "i32", "u64", "u128", "usize", "isize"]:
+    _h.append(H("try_into_" + t, "C15.K.try_into.%s" % t, ["macro impl_try_into"], "TryFrom<SafeLong> for %s: Ok exactly when the value fits, and then it is the value (all safelongs)" % t))
 for t in ["f32", "f64", "bool", "unit"]:
     _h.append(H("de_%s_event" % t, "C15.K.deserialize.%s_event" % t, ["de::Deserialize<'de> for SafeLong::deserialize"],
                 "%s event never yields an out-of-range safelong" % t))
